@@ -444,6 +444,9 @@ func bindingSelfTest(c *Check, lines []TraceLine, lim Lim) {
 		machineryFail("binding self-test: the recorded trace offers nothing to falsify (%d of 3)", tampered)
 	}
 	if !traceIsAccepted(c, win, lim) {
+		if c.Violations() > 0 {
+			return // the recorded execution itself is not a behaviour of the model (already reported): nothing to falsify
+		}
 		machineryFail("binding self-test: the untouched trace window is refused")
 	}
 	for i, t := range [][]TraceLine{t1, t2, t3} {
